@@ -60,7 +60,9 @@ def build():
         for gen, out in (("gen_consts.py", "Consts.v"), ("gen_callgraph.py", "CallGraph.v"), ("gen_helpers.py", "GenHelpers.v"),
                          ("gen_helpers2.py", "GenHelpers2.v"), ("gen_storage.py", "GenStorage.v"),
                          ("gen_node.py", "GenNode.v"), ("gen_links.py", "GenLinks.v"), ("gen_trie.py", "GenTrie.v"),
-                         ("gen_triew.py", "GenTrieW.v")):
+                         ("gen_triew.py", "GenTrieW.v"), ("gen_tried.py", "GenTrieD.v"), ("gen_traph.py", "GenTraph.v"),
+                         ("gen_traphw.py", "GenTraphW.v"), ("gen_traphl.py", "GenTraphL.v"), ("gen_traphp.py", "GenTraphP.v"),
+                         ("gen_traphk.py", "GenTraphK.v")):
             g = os.path.join(HERE, gen)
             if not os.path.exists(g):
                 continue
